@@ -313,7 +313,9 @@ func (r *Reader) MarkdownWithOptions(opts ExtractOptions) (string, error) {
 		}
 	}
 
-	return strings.TrimSpace(result.String()), nil
+	// Trim surrounding blank lines only: leading spaces are the indentation of
+	// a nested list item the document may start with
+	return strings.Trim(result.String(), "\n"), nil
 }
 
 // MarkdownWithRAGOptions returns document content as Markdown with both extraction
@@ -456,7 +458,9 @@ func (r *Reader) MarkdownWithRAGOptions(extractOpts ExtractOptions, mdOpts rag.M
 		}
 	}
 
-	return strings.TrimSpace(result.String()), nil
+	// Trim surrounding blank lines only: leading spaces are the indentation of
+	// a nested list item the document may start with
+	return strings.Trim(result.String(), "\n"), nil
 }
 
 // writeMarkdownListItem writes a list item in markdown format.
